@@ -254,6 +254,9 @@ def btcTx : Ty := .struct [u32, lst 128 btcTxIn, lst 128 btcTxOut, u32]
 def btcHeader : Ty := .struct [u32, hash256, hash256, u32, u32, u32]
 def auxPow : Ty := .struct [btcTx, hash256, lst 128 hash256, u32, lst 128 hash256, u32, btcHeader]
 def headerNoAux : Ty := .struct [u32, hash256, hash256, u32, u32, u32, u32]
+/-- a value of the on-disk block index bucket (`blockchain.DeserializeBlockRow`): header without
+    aux-pow (84 bytes), status byte -/
+def blockRow : Ty := .struct [headerNoAux, .uint 1]
 /-- `Header.Serialize`: fields, aux-pow, a trailing `0x01` byte (skipped, not checked, by the reader) -/
 def header : Ty := .struct [u32, hash256, hash256, u32, u32, u32, u32, auxPow, .pad1]
 /-- `MerkleBlock` (p2p/msg): header, transaction count, `uint32` hash count checked against
